@@ -1,6 +1,7 @@
 package dhcp
 
 import (
+	"bytes"
 	"context"
 	"crypto/rand"
 	"encoding/hex"
@@ -744,6 +745,24 @@ func (s *Server) handleRequest(req *dhcpv4.DHCPv4) (*dhcpv4.DHCPv4, error) {
 	s.offersMu.Lock()
 	delete(s.offers, mac.String())
 	s.offersMu.Unlock()
+
+	// A renewal that arrives through another port carries another circuit-id:
+	// the index and fast path entries keyed by the previous one no longer
+	// belong to this lease (nothing else would ever remove them)
+	if existingLease != nil && len(existingLease.CircuitID) > 0 && !bytes.Equal(existingLease.CircuitID, lease.CircuitID) {
+		oldKey := hex.EncodeToString(existingLease.CircuitID)
+		s.leasesByCircuitIDMu.Lock()
+		if s.leasesByCircuitID[oldKey] == existingLease {
+			delete(s.leasesByCircuitID, oldKey)
+		}
+		s.leasesByCircuitIDMu.Unlock()
+		if s.loader != nil {
+			s.loader.RemoveCircuitIDMapping(existingLease.CircuitID)
+			if s.loader.HasCircuitIDSubscriberSupport() {
+				s.loader.RemoveCircuitIDSubscriber(existingLease.CircuitID)
+			}
+		}
+	}
 
 	// Maintain circuit-ID secondary index for relay-aware lookup
 	if len(lease.CircuitID) > 0 {
